@@ -137,17 +137,22 @@ APPEND = {
     ("C03_rmw_atomicity_fixpoint", "rmw_atomicity_fixpoint", "RMW atomicity (fix 189e88b): at the fixpoint, every RMW store whose source is mo-before the new store is itself mo-before the new store"),
     ("C03_rmw_atomicity_sufficient_fuel", "rmw_atomicity_sufficient_fuel", "the fixpoint is reached with fuel = ring size"),
     ("C03_atomic_store_from_rmw_atomic", "atomic_store_from_rmw_atomic", "the postcondition of the model's own store: the new store is mo-after the thread's clock, after every store it has seen, and closed under RMW atomicity"),
- ]), ("LV.AtomicFacts LV.AtomicCoherence LV.AtomicCoRR", "COHERENCE OVER SEQUENCES of operations by several threads on one atomic (AtomicCoRR.v): a machine whose steps are literally the model's atomic_load / atomic_store / atomic_rmw (after fix c0421c4), plus arbitrary extra happens-before edges between threads", [
-    ("C03_mrun_inv2", "mrun_inv2", "the invariant (clocks bounded by their owners, every live store keyed by its storing thread's stamp, the key order is exactly vv_lt, no two live stores ordered both ways, first-seen stamps bounded) is preserved by every run"),
-    ("C03_mlts_never_none", "mlts_never_none", "loom's `assert_ne!(mo_i, mo_j)` never fires: no two live stores ever have equal modification-order clocks"),
-    ("C03_run_stable", "run_stable", "THE KEY LEMMA: an edge `a <mo b` between live stores is never lost, whatever any thread does afterwards"),
-    ("C03_CoRR_CoWR", "CoRR_CoWR", "CoRR / CoWR in happens-before form: once a thread knows a store j (its own store, a store it read, or through any chain of synchronisation), it can never again read a store that was mo-before j"),
-    ("C03_CoRR_same_thread", "CoRR_same_thread", "read-read coherence for one thread with arbitrary steps of arbitrary threads in between, no side condition"),
-    ("C03_CoWR_same_thread", "CoWR_same_thread", "write-read coherence likewise"),
-    ("C03_CoRW_same_thread", "CoRW_same_thread", "read-write coherence: a later store of the thread is mo-after what it read"),
-    ("C03_CoWW_same_thread", "CoWW_same_thread", "write-write coherence"),
-    ("C03_coherence_counterexample_before_fix", "coherence_counterexample_before_fix", "computed: with the rule before the fix a thread reads its own older store after its newer one (the defect repaired by c0421c4)"),
-    ("C03_rmw_gap_example", "rmw_gap_example", "computed: the listed finding D19 in the model: loads can still order a store between an RMW's source and the RMW's own store"),
+ ]), ("LV.AtomicFacts LV.AtomicCoherence LV.AtomicCoRR", "COHERENCE OVER SEQUENCES of operations by several threads on one atomic (AtomicCoRR.v), with arbitrary extra happens-before edges between threads. Proved for the machine whose load rule is the one of fix c0421c4 (suffix _c0421c4); the model's current functions add the RMW-atomicity closure of fix 01ecff8 after it: they coincide with that machine on every run without RMWs (theorems below), and the closure itself is covered by computed searches", [
+    ("C03_model_alc_eq", "model_alc_eq", "the model's apply_load_coherence is the c0421c4 rule followed by the RMW-atomicity closure"),
+    ("C03_mrun_model_eq", "mrun_model_eq", "on runs without RMWs the machine built from the model's atomic_load / atomic_store is, step for step, the c0421c4 machine"),
+    ("C03_model_rmw_free_inv", "model_rmw_free_inv", "so for the model's own functions on RMW-free runs: the invariant holds and loom's `assert_ne!(mo_i, mo_j)` never fires"),
+    ("C03_mrun_inv2_c0421c4", "mrun_inv2_c0421c4", "the invariant (clocks bounded by their owners, every live store keyed by its storing thread's stamp, the key order is exactly vv_lt, no two live stores ordered both ways, first-seen stamps bounded) is preserved by every run"),
+    ("C03_mlts_never_none_c0421c4", "mlts_never_none_c0421c4", "no two live stores ever have equal modification-order clocks"),
+    ("C03_run_stable_c0421c4", "run_stable_c0421c4", "THE KEY LEMMA: an edge `a <mo b` between live stores is never lost, whatever any thread does afterwards"),
+    ("C03_CoRR_CoWR_c0421c4", "CoRR_CoWR_c0421c4", "CoRR / CoWR in happens-before form: once a thread knows a store j (its own store, a store it read, or through any chain of synchronisation), it can never again read a store that was mo-before j"),
+    ("C03_CoRR_same_thread_c0421c4", "CoRR_same_thread_c0421c4", "read-read coherence for one thread with arbitrary steps of arbitrary threads in between"),
+    ("C03_CoWR_same_thread_c0421c4", "CoWR_same_thread_c0421c4", "write-read coherence likewise"),
+    ("C03_CoRW_same_thread_c0421c4", "CoRW_same_thread_c0421c4", "read-write coherence: a later store of the thread is mo-after what it read"),
+    ("C03_CoWW_same_thread_c0421c4", "CoWW_same_thread_c0421c4", "write-write coherence"),
+    ("C03_coherence_counterexample_before_fix", "coherence_counterexample_before_fix", "computed: with the rule before fix c0421c4 a thread reads its own older store after its newer one"),
+    ("C03_rmw_gap_before_fix", "rmw_gap_before_fix", "computed: with the rule before fix 01ecff8 loads order a store between an RMW's source and the RMW's own store"),
+    ("C03_rmw_gap_refused", "rmw_gap_refused", "computed: the model's current functions refuse both orders of that scenario"),
+    ("C03_search_closure_clean", "search_closure_clean", "computed, exhaustive (4 threads x 3 steps, 3 threads x 4 steps after store | store ; fetch_add): with the model's current functions no modification-order edge is lost, no two clocks are equal, every RMW store immediately follows its source, and every state is closed"),
  ])],
  "C02": [("LV.AtomicFacts LV.AtomicCoherence", "Nothing allowed is pruned without a reason: the candidate set is never empty and contains every mo-maximal store (AtomicCoherence.v)", [
     ("C02_mo_maximal_is_candidate", "mo_maximal_is_candidate", "a live store with no mo-later live store is always a candidate"),
